@@ -10,7 +10,16 @@ from vf import gen, chain
 def cases(draw, tier):
     big = tier == "thorough"
     two = draw(st.integers(0, 3)) == 0
-    spec = draw(chain.chain_model_specs(2, 2 if two else (7 if big else 6), max_dim=512 if big else 128))
+    dav = big and draw(st.integers(0, 7)) == 0
+    if dav:
+        # large enough for the iterative (Davidson) path: the optimizer only takes it when the local tensor has >= 1000 entries
+        spec = draw(chain.chain_model_specs(10, 11, max_dim=2048, qn=draw(st.sampled_from([0, 1]))))
+        for s_ in spec["sites"]:
+            if s_["k"] not in ("spin", "elec"):
+                s_.clear()
+                s_.update({"k": "spin"} if spec["qnmode"] == 0 else {"k": "spin", "qn": [[0], [1]]})
+    else:
+        spec = draw(chain.chain_model_specs(2, 2 if two else (7 if big else 6), max_dim=512 if big else 128))
     terms = draw(gen.hermitian_hamiltonian(spec, max_terms=5))
     nsweep = draw(st.integers(2, 6))
     full = draw(st.integers(0, 2)) == 0  # equality case: sufficient bond limits, last sweeps without perturbation
@@ -23,10 +32,12 @@ def cases(draw, tier):
         sched.append([M, pct, draw(st.booleans())])  # third: pass a CompressConfig object instead of an int
     if full and nsweep < 4:
         sched = [[64, 0.3, False], [64, 0.2, True]] + sched
-    return {"model": spec, "terms": terms, "hnorm": draw(st.sampled_from([0.5, 1.0, 3.0, 8.0])),
+    if dav:
+        sched = [[64, 0.2, False], [64, 0, True]]
+    return {"model": spec, "terms": terms, "hnorm": draw(st.sampled_from([0.5, 1.0, 3.0, 8.0])), "dav": dav,
             "q": draw(st.integers(0, 50)), "m0": draw(st.sampled_from([1, 2, 4, 8])), "rng": draw(st.integers(0, 10 ** 6)),
-            "sched": sched, "method": draw(st.sampled_from(["1site", "2site", "2site"])),
-            "algo": draw(st.sampled_from(["direct", "davidson"])), "nroots": draw(st.sampled_from([1, 1, 1, 2, 3, 4])),
+            "sched": sched, "method": "2site" if dav else draw(st.sampled_from(["1site", "2site", "2site"])),
+            "algo": "davidson" if dav else draw(st.sampled_from(["direct", "davidson"])), "nroots": draw(st.sampled_from([1, 1, 1, 2, 3, 4])),
             "omega": draw(st.sampled_from([None, None, None, 0.0, 0.4, -1.3, 100.0])),
             "stacked": draw(st.integers(0, 4)) == 0, "mpo_algo": draw(st.sampled_from(["qr", "Hopcroft-Karp"])),
             "full": full}
@@ -66,7 +77,7 @@ class C08(Prop):
                    "nroots <= sector dimension / 2 (the local problems must have at least nroots solutions)"]
 
     def budget(self, tier):
-        return dict(examples=320, shards=16) if tier == "quick" else dict(examples=12000, shards=16)
+        return dict(examples=320, shards=16) if tier == "quick" else dict(examples=6000, shards=16)
 
     def strategy(self, tier):
         return cases(tier)
@@ -147,6 +158,8 @@ class C08(Prop):
         mps.optimize_config.method = case["method"]
         mps.optimize_config.algo = case["algo"]
         mps.optimize_config.nroots = nroots
+        if case.get("dav"):
+            r.classes.append("davidson_path_size")
         r.classes += [f"method.{case['method']}", f"algo.{case['algo']}", f"nroots={nroots}", f"qn={spec.get('qnmode')}",
                       "omega" if omega is not None else "no_omega", "sufficient" if sufficient else "truncating"]
         r.nontrivial = dimq >= 4
